@@ -47,6 +47,8 @@ CLAIMS["C15"] = ("per Codec variant the compress and decompress arms call the du
                  "static analysis: variant-partitioned call inventory vs a pairing table + def-use/edge rules over MIR")
 CLAIMS["C16"] = ("for every scalar serde data-model method and schema shape (146 cells today): the stream tokens SchemaAwareSerializer writes and SchemaAwareDeserializer reads are those the generic decoder reads for that shape, and both sides accept the same shapes; under unions the branch index comes first; imported byte-count (C13) and block-framing (C02) obligations of the serde writers/readers; RecordSerializer writes in schema order (compare position, cache early fields, flush all consecutive cached fields in a loop, fill defaults in a loop)",
                  "static analysis: variant-partitioned path summaries keyed on the self.schema field over MIR, three-way table comparison + loop/def-use shape rules")
+CLAIMS["C17"] = ("translation validation over a generated corpus (86 types quick / 266 thorough: every rename_all rule x tricky identifiers, renames, skips, defaults, aliases, namespaces, nesting, recursion, repeated named types, unit enums) compiled against the current tree and never run: the names, order and field types in the AvroSchema derive's expansion equal those in serde's expansion of the same type; every derived named type answers with a reference when already seen and registers its name before building nested schemas; the corpus compiles",
+                 "static analysis of generated programs: MIR of the derive expansions vs serde's expansions (cross-derive agreement)")
 NA_DEFAULT = "check under construction in this round (see DESIGN.md); not yet claimed"
 
 
